@@ -27,6 +27,7 @@ func propC03(c *Ctx) propInfo {
 	c.floor("E2.R-lossyconv", 4)
 	c.guardPolarity("boc", "tlb", "wallet", "ton", "tl", "tonconnect", "liteclient", "abi")
 	c.enumTables("E12.enum-tables", "tlb", "wallet", "ton")
+	c.aliasTableMixup("E12.alias-tables", "abi", "tlb", "wallet")
 	c.writeWidthPreconditions("tlb", "wallet") // a length or count written into a fixed-width field is known to fit
 	c.cursorPairing()                          // tlb.Any decodes "the rest of the cell" through CopyRemaining
 	c.valueReceivers("E14.value-receivers", "MarshalTLB", "tlb", "wallet", "abi", "ton", "tep64")
